@@ -7,7 +7,7 @@ def parseCb : String → CbSpec
   | "p" => .plain | "x" => .raises (.user 1) | "c" => .coro | _ => .none
 
 def parseWs (m sw : String) : WSpec :=
-  { mode := match m with | "r" => .retNow | "x" => .raiseNow (.user 2) | _ => .gated, swallow := sw == "1" }
+  { mode := match m with | "r" => .retNow | "x" => .raiseNow (.user 2) | _ => .gated, swallow := sw == "1", resume := sw == "2" }
 
 /-- op lines are blank-separated: the empty string (a legal group name) travels as `''` -/
 def decName (s : String) : String := if s == "''" then "" else s
